@@ -214,3 +214,122 @@ theorem safe_sendBody (d : Disc) (m : Mon) (q : Send) (fail : Err → Prog) (ref
   · exact hread _ _ _
 
 end Ledger.Sched
+
+namespace Ledger.Sched
+
+/-- top-level writes: the key is the log lock taken by the write itself (or another ledger is written) -/
+def TopOK (d : Disc) (l : Nat) (sync : Bool) : Prop := l = d.l₀ → sync = true ∧ logKey l = d.K
+
+theorem keep_after_begin (d : Disc) (l : Nat) (sync : Bool) (m : Mon) (h : TopOK d l sync) :
+    Keep d l sync { m with tx := true } := by
+  intro hl
+  obtain ⟨hs, hk⟩ := h hl
+  exact ⟨rfl, Or.inr ⟨hs, hk⟩, fun _ => hs⟩
+
+theorem monStep_begin (d : Disc) (m : Mon) (o : Out) (h : Possible .begin o) : monStep d m .begin o = { m with tx := true } := by
+  have : o.err = none := h
+  unfold monStep; rw [this]
+
+/-- a body is safe when it is safe under `Keep` for continuations that are safe under `Keep` -/
+def BodySafe (d : Disc) (l : Nat) (sync : Bool) (body : Body) : Prop :=
+  ∀ m fail refuse succ, Keep d l sync m →
+    (∀ m' e, Keep d l sync m' → Safe d m' (fail e)) →
+    (∀ m' r, Keep d l sync m' → Safe d m' (refuse r)) →
+    (∀ m' a b, Keep d l sync m' → Safe d m' (succ a b)) → Safe d m (body fail refuse succ)
+
+theorem bodySafe_send (d : Disc) (q : Send) : BodySafe d q.l q.sync (sendBody q) :=
+  fun m fail refuse succ hk hf hr hs => safe_sendBody d m q fail refuse succ hk hf hr hs
+
+theorem safe_readIK_fin (d : Disc) (m : Mon) (l ik : Nat) (k : Out → Prog) (hk : ∀ m' o, Safe d m' (k o)) :
+    Safe d m (.stmt (.readIK l ik) k) :=
+  ⟨trivial, fun o _ => hk _ o⟩
+
+theorem safe_recorded (d : Disc) (m : Mon) (recheck : Bool) (l ik hash : Nat) (fin : Resp → Prog) (own : Resp)
+    (hfin : ∀ m' r, Safe d m' (fin r)) : Safe d m (recordedOutcome recheck l ik hash fin own) := by
+  unfold recordedOutcome
+  split
+  · exact hfin _ _
+  · refine safe_readIK_fin d m l ik _ (fun m' o => ?_)
+    split <;> exact hfin _ _
+
+theorem safe_retry_top (d : Disc) (recheck : Bool) (l ik hash : Nat) (sync : Bool) (body : Body) (fin : Resp → Prog)
+    (htop : TopOK d l sync) (hb : BodySafe d l sync body) (hfin : ∀ m' r, Safe d m' (fin r)) :
+    ∀ fuel m, Safe d m (forgeLogRetry recheck topTx l ik hash body fin fuel) := by
+  intro fuel
+  induction fuel with
+  | zero => intro m; exact hfin _ _
+  | succ n ih =>
+    intro m
+    unfold forgeLogRetry
+    dsimp only [topTx]
+    refine ⟨trivial, fun o ho => ?_⟩
+    rw [monStep_begin d m o ho]
+    dsimp only
+    apply hb _ _ _ _ (keep_after_begin d l sync m htop)
+    · intro m' e _
+      (try dsimp only)
+      split
+      · exact hfin _ _
+      · refine ⟨trivial, fun o' _ => ?_⟩
+        dsimp only [topTx]
+        split
+        · exact ih _
+        · exact safe_readIK_fin d _ l ik _ (fun m'' o'' => by split <;> exact hfin _ _)
+        · exact safe_recorded d _ recheck l ik hash fin _ hfin
+    · intro m' r _
+      exact ⟨trivial, fun _ _ => safe_recorded d _ recheck l ik hash fin _ hfin⟩
+    · intro m' a b _
+      exact ⟨trivial, fun _ _ => hfin _ _⟩
+
+theorem safe_forgeLog_top (d : Disc) (recheck : Bool) (l ik hash : Nat) (sync : Bool) (body : Body) (fin : Resp → Prog)
+    (htop : TopOK d l sync) (hb : BodySafe d l sync body) (hfin : ∀ m' r, Safe d m' (fin r)) (m : Mon) :
+    Safe d m (forgeLogG recheck topTx l ik hash body fin) := by
+  have hrun : ∀ m', Keep d l sync m' → Safe d m' (body
+      (fun e =>
+        if e = .uniqueTxId then fin { err := "panic" } else
+        .stmt topTx.rollback_ fun _ =>
+        if retryable e then forgeLogRetry recheck topTx l ik hash body fin retryFuel
+        else recordedOutcome recheck l ik hash fin { err := errName e })
+      (fun r => .stmt topTx.rollback_ fun _ => recordedOutcome recheck l ik hash fin { err := r })
+      (fun tx log => .stmt topTx.commit_ fun _ => fin { tx := tx, log := log })) := by
+    intro m' hk
+    apply hb _ _ _ _ hk
+    · intro m'' e _
+      (try dsimp only)
+      split
+      · exact hfin _ _
+      · refine ⟨trivial, fun o' _ => ?_⟩
+        dsimp only
+        split
+        · exact safe_retry_top d recheck l ik hash sync body fin htop hb hfin _ _
+        · exact safe_recorded d _ recheck l ik hash fin _ hfin
+    · intro m'' r _
+      exact ⟨trivial, fun _ _ => safe_recorded d _ recheck l ik hash fin _ hfin⟩
+    · intro m'' a b _
+      exact ⟨trivial, fun _ _ => hfin _ _⟩
+  unfold forgeLogG
+  dsimp only [topTx] at hrun ⊢
+  refine ⟨trivial, fun o ho => ?_⟩
+  rw [monStep_begin d m o ho]
+  have hk := keep_after_begin d l sync m htop
+  dsimp only
+  split
+  · exact hrun _ hk
+  · refine ⟨trivial, fun o' _ => ?_⟩
+    have hk' : Keep d l sync (monStep d { m with tx := true } (.readIK l ik) o') := by
+      cases ho' : o'.err with
+      | none => rw [monStep_plain d _ _ o' rfl ho']; exact hk
+      | some e => exact keep_err d l sync _ _ o' e ho' hk
+    dsimp only
+    split
+    · exact ⟨trivial, fun _ _ => hfin _ _⟩
+    · exact hrun _ hk'
+
+/-- a write on a ledger in use (the state tracker passes the request through) -/
+theorem safe_sendProg_inUse (d : Disc) (q : Send) (htop : TopOK d q.l q.sync) (m : Mon) :
+    Safe d m (sendProg q true) := by
+  unfold sendProg handleState
+  simp only [if_true]
+  exact safe_forgeLog_top d true q.l q.ik q.hash q.sync (sendBody q) .done htop (bodySafe_send d q) (fun _ _ => trivial) m
+
+end Ledger.Sched
